@@ -139,7 +139,9 @@ class Emitter:
             elif f[0] == "excluded":
                 how, gt = f[1], f[2]
                 self.nx += 1
-                if how == "embedded-unexported":
+                if how == "embedded-dash":
+                    lines.append('\t%s `parquet:"-"`' % gt)
+                elif how == "embedded-unexported":
                     # an embedded struct whose type name is unexported is an unexported field
                     lines.append("\t%s" % gt)
                 elif how == "dash":
